@@ -3,6 +3,10 @@ From ZK Require Import Cl ClArith ClSig ClMore ClGroup ClBoudot ModelLemmas ClSp
 From Coq Require Import ZArith Lia Znumtheory Zpow_facts Zdiv Sorting.Sorted Setoid Morphisms Ring.
 Open Scope Z_scope.
 
+(* what is assumed of the logged randomness: a draw made by random_bits (kind 0) is not negative.  Draws of the other
+   kinds (rand_int may be negative) are not constrained. *)
+Definition bits_ok (d : draw) : Prop := d_kind d = 0%N -> 0 <= d_val d.
+
 (* ---------------------------------------------------------------- prover-side building blocks *)
 Section Prover.
   Variable CS : clsuite.
@@ -26,19 +30,22 @@ Section Prover.
   Lemma all_idx_none n : all_idx n None = map N.of_nat (seq 0 n).
   Proof. reflexivity. Qed.
 
-  Lemma random_bits_nonneg k ds r ds' : Forall (fun d => 0 <= d_val d) ds -> random_bits k ds = Ok (r, ds') ->
-    0 <= r /\ Forall (fun d => 0 <= d_val d) ds'.
+  Lemma random_bits_nonneg k ds r ds' : Forall bits_ok ds -> random_bits k ds = Ok (r, ds') ->
+    0 <= r /\ Forall bits_ok ds'.
   Proof.
-    intros Hd H. apply random_bits_val in H as [x [-> ->]]. inversion Hd; subst. auto.
+    intros Hd H. unfold random_bits in H. destruct (Z.leb_spec k 0); [discriminate|]. unfold draw_req in H.
+    destruct ds as [|d rest]; [discriminate|]. destruct (N.eqb_spec (d_kind d) 0) as [Hk|]; [|discriminate].
+    destruct (zlist_eqb _ _); [|discriminate]. cbn [andb] in H. inversion H; subst. inversion Hd as [|? ? Hd0 Hdr]; subst.
+    split; [apply Hd0; exact Hk|exact Hdr].
   Qed.
 
   (* commit_with_commitment_pk over all messages: value = prod g_i^m_i * h^r mod N *)
   Lemma commit_with_cpk_all msgs ck ds c ds' :
     ck_N ck = Nm -> Forall (fun x => 0 <= x) msgs -> (length msgs <= length (ck_g ck))%nat ->
-    Forall (fun d => 0 <= d_val d) ds ->
+    Forall bits_ok ds ->
     commit_with_cpk CS msgs ck None ds = Ok (c, ds') ->
     0 <= c_rand c /\ 0 <= c_value c < Nm /\ c_value c == PP (ck_g ck) msgs * ck_h ck ^ c_rand c /\
-    Forall (fun d => 0 <= d_val d) ds'.
+    Forall bits_ok ds'.
   Proof.
     intros HNm Hm Hl Hd H. unfold commit_with_cpk in H. rewrite HNm in H.
     mstep H r d1 Hr. mstep H cx d2 Hcx. mstep H hr d3 Hhr. apply mret_ok in H as [-> ->].
@@ -56,15 +63,15 @@ Section Prover.
 
   (* r_5: non-negative, and equal to the attribute at every revealed position *)
   Lemma r5_loop_spec U : forall msgs i ds r5 ds',
-    Forall (fun x => 0 <= x) msgs -> Forall (fun d => 0 <= d_val d) ds ->
+    Forall (fun x => 0 <= x) msgs -> Forall bits_ok ds ->
     r5_loop CS msgs i U ds = Ok (r5, ds') ->
-    length r5 = length msgs /\ Forall (fun x => 0 <= x) r5 /\ Forall (fun d => 0 <= d_val d) ds' /\
+    length r5 = length msgs /\ Forall (fun x => 0 <= x) r5 /\ Forall bits_ok ds' /\
     (forall k, (k < length msgs)%nat -> memb (i + N.of_nat k)%N U = false -> nth k r5 0 = nth k msgs 0).
   Proof.
     induction msgs as [|m ms IH]; intros i ds r5 ds' Hm Hd H; cbn [r5_loop] in H.
     - apply mret_ok in H as [-> ->]. repeat split; auto; intros k Hk; cbn in Hk; lia.
     - inversion Hm; subst. mstep H r d1 Hr. mstep H t d2 Ht. apply mret_ok in H as [-> ->].
-      assert (Hr' : 0 <= r /\ Forall (fun d => 0 <= d_val d) d1 /\ (memb i U = false -> r = m)).
+      assert (Hr' : 0 <= r /\ Forall bits_ok d1 /\ (memb i U = false -> r = m)).
       { destruct (memb i U).
         - apply random_bits_nonneg in Hr as [? ?]; [|assumption]. repeat split; auto. discriminate.
         - apply mret_ok in Hr as [-> ->]. auto. }
@@ -192,3 +199,232 @@ Proof.
   destruct (mapM _ us) as [t| | |] eqn:Et; try discriminate. cbn [bind] in H. inversion H; subst.
   cbn [map]. rewrite <- (IH t eq_refl). unfold at_. rewrite (nth_error_nth _ _ _ Er), (nth_error_nth _ _ _ Em). reflexivity.
 Qed.
+
+(* ---------------------------------------------------------------- the theorem *)
+Lemma commit_v_spec CS Nm v ck ds c ds' : 0 < Nm -> ck_N ck = Nm -> 0 <= v ->
+  Forall bits_ok ds -> commit_v CS v ck ds = Ok (c, ds') ->
+  exists g0, nthZ (ck_g ck) 0 = Ok g0 /\ 0 <= c_rand c /\ 0 <= c_value c < Nm /\ cg Nm (c_value c) (v * g0 ^ c_rand c) /\
+  Forall bits_ok ds'.
+Proof.
+  intros HN HNm Hv Hd H. unfold commit_v in H. rewrite HNm in H.
+  mstep H w d1 Hw. mstep H g0 d2 Hg0. mstep H gw d3 Hgw. apply mret_ok in H as [-> ->].
+  apply random_bits_nonneg in Hw as [Hw0 Hd1]; [|assumption].
+  apply lift_ok in Hg0 as [Hg0 ->]. apply lift_ok in Hgw as [Hgw ->].
+  rewrite pow_mod_nonneg in Hgw by lia. inversion Hgw; subst gw; clear Hgw.
+  exists g0. cbn [c_value c_rand]. split; [exact Hg0|]. split; [exact Hw0|].
+  rewrite rem_mod_nonneg by first [lia | apply Z.mul_nonneg_nonneg; [assumption|apply Z.mod_pos_bound; lia]].
+  split; [apply Z.mod_pos_bound; lia|]. split; [|assumption].
+  unfold cg. eapply eqm_trans; [apply Zmod_eqm|]. apply eqm_mul; [exact HN|apply eqm_refl|apply Zmod_eqm].
+Qed.
+
+Lemma walk_full Nm (HN : 0 < Nm) U bases ms r5 ch : 0 <= ch ->
+  Forall (fun x => 0 <= x) ms -> Forall (fun x => 0 <= x) r5 -> length r5 = length ms ->
+  (forall k, (k < length ms)%nat -> memb (0 + N.of_nat k) U = false -> nth k r5 0 = nth k ms 0) ->
+  (length ms <= length bases)%nat ->
+  exists r, walk bases Nm (map (fun j => at_ r5 j + at_ ms j * ch) (hidden_of U 0 (length ms)))
+                 (map (at_ ms) (revealed_of U 0 (length ms))) ch U (length ms) 0%N 1 = Ok r /\ 0 <= r /\ cg Nm r (PP bases r5 * PP bases ms ^ ch).
+Proof.
+  intros Hch Hms Hr5 Hl Hrev Hb.
+  assert (Hrev' : forall j, (N.to_nat j < length ms)%nat -> memb j U = false -> at_ r5 j = at_ ms j).
+  { intros j Hj Hm. unfold at_. apply Hrev; [exact Hj|]. rewrite N2Nat.id. exact Hm. }
+  destruct (walk_spec Nm HN U bases ms r5 ch Hch Hms Hr5 Hl Hrev' (length ms) 0%nat 1 [] [] ltac:(lia) ltac:(lia) ltac:(lia))
+    as [r [Hw [Hr0 He]]].
+  rewrite !app_nil_r in Hw. cbn [N.of_nat] in Hw. exists r. split; [exact Hw|]. split; [exact Hr0|].
+  unfold cg. eapply eqm_trans; [exact He|]. apply eqm_eq. cbn [skipn].
+  rewrite firstn_all2 by (rewrite map_length, combine_length; lia).
+  rewrite PP_lin by assumption. ring.
+Qed.
+
+Lemma mod_nn a n : 0 < n -> 0 <= a mod n. Proof. intros. apply Z.mod_pos_bound; assumption. Qed.
+Ltac nn1 := first [assumption | apply mod_nn; assumption | match goal with H : 0 <= ?x < _ |- 0 <= ?x => exact (proj1 H) end].
+Ltac nn := repeat apply Z.mul_nonneg_nonneg; nn1.
+
+Ltac en := apply Z.add_nonneg_nonneg; [assumption|repeat apply Z.mul_nonneg_nonneg; first [assumption | lia]].
+
+Section Main.
+  Variable CS : clsuite.
+
+  Theorem nisp5_complete sg ck pk bases msgs U ds p ds' :
+    0 < pk_N pk -> ck_N ck = pk_N pk ->
+    Forall (unit (pk_N pk)) bases -> Forall (unit (pk_N pk)) (ck_g ck) -> unit (pk_N pk) (ck_h ck) ->
+    unit (pk_N pk) (pk_b pk) -> unit (pk_N pk) (pk_c pk) -> 0 <= pk_c pk ->
+    (length msgs <= length bases)%nat -> (length msgs <= length (ck_g ck))%nat -> (1 <= length (ck_g ck))%nat ->
+    0 <= s_s sg ->
+    verify_multiattr CS sg pk bases msgs = Ok true ->
+    strictly_sorted U -> Forall (fun j => (N.to_nat j < length msgs)%nat) U ->
+    Forall bits_ok ds ->
+    nisp5_gen CS sg ck pk bases msgs U ds = Ok (p, ds') ->
+    nisp5_verify p ck pk bases (map (at_ msgs) (revealed_of U 0 (length msgs))) U (length msgs) = Ok true.
+  Proof.
+    intros HN HNm Hbases Hcg Hh Hb Hc Hc0 Hlb Hlg Hg1 Hs Hver HS HU Hd H.
+    remember (pk_N pk) as Nm eqn:ENm.
+    (* the signature equation and the ranges, from the issuer's check *)
+    unfold verify_multiattr in Hver.
+    destruct (Nat.ltb_spec (length bases) (length msgs)); [lia|].
+    destruct (forallb (msg_in_range CS) msgs) eqn:Hrange; [|discriminate]. cbn [negb] in Hver.
+    rewrite <- ENm in Hver. destruct ((s_v sg <=? 0) || (Nm <=? s_v sg))%bool eqn:Hvr; [discriminate|].
+    apply Bool.orb_false_iff in Hvr as [Hv0 HvN]. apply Z.leb_gt in Hv0. apply Z.leb_gt in HvN.
+    assert (Hm0 : Forall (fun x => 0 <= x) msgs).
+    { rewrite Forall_forall. intros x Hx. rewrite forallb_forall in Hrange. specialize (Hrange x Hx).
+      unfold msg_in_range in Hrange. apply Bool.andb_true_iff in Hrange as [Hr _]. apply Z.leb_le in Hr. exact Hr. }
+    destruct (Z.leb_spec (s_e sg) (two (le CS - 1))) as [|He].
+    { destruct (pow_mod (s_v sg) (s_e sg) Nm); try discriminate. cbn [bind] in Hver.
+      destruct (prod_pows bases msgs Nm 1); try discriminate. cbn [bind] in Hver.
+      destruct (pow_mod (pk_b pk) (s_s sg) Nm); discriminate. }
+    assert (He0 : 0 < s_e sg) by (pose proof (Z.pow_nonneg 2 (le CS - 1) ltac:(lia)); unfold two in He; lia).
+    assert (He00 : 0 <= s_e sg) by lia.
+    rewrite pow_mod_nonneg in Hver by lia. cbn [bind] in Hver.
+    destruct (prod_pows bases msgs Nm 1) as [r0| | |] eqn:Hr0; try discriminate. cbn [bind] in Hver.
+    rewrite pow_mod_nonneg in Hver by lia. cbn [bind] in Hver.
+    apply (prod_pows_PP Nm HN) in Hr0 as [Hr00 Hr0]; [|assumption|lia].
+    assert (Hsig : cg Nm (s_v sg ^ s_e sg) (PP bases msgs * pk_b pk ^ s_s sg * pk_c pk)).
+    { inversion Hver as [Hq]. apply Z.eqb_eq in Hq.
+      rewrite rem_mod_nonneg in Hq by first [lia | repeat apply Z.mul_nonneg_nonneg; try assumption; apply Z.mod_pos_bound; lia].
+      unfold cg. eapply eqm_trans; [apply eqm_sym; apply Zmod_eqm|]. rewrite Hq. eapply eqm_trans; [apply Zmod_eqm|].
+      apply eqm_mul; [exact HN| |apply eqm_refl]. apply eqm_mul; [exact HN| |apply Zmod_eqm].
+      eapply eqm_trans; [exact Hr0|]. apply eqm_eq. ring. }
+    clear Hver Hr0 Hr00 r0.
+    (* the prover *)
+    unfold nisp5_gen in H. rewrite <- ENm in H.
+    destruct (Nat.ltb_spec (length bases) (length msgs)); [lia|]. cbn [andb] in H.
+    mstep H CCx d1 HCx. mstep H CCv d2 HCv. mstep H CCw d3 HCw. mstep H CCe d4 HCe.
+    mstep H r1 d5 Hr1. mstep H r2 d6 Hr2. mstep H r3 d7 Hr3. mstep H r4 d8 Hr4. mstep H r6 d9 Hr6.
+    mstep H r7 d10 Hr7. mstep H r8 d11 Hr8. mstep H r9 d12 Hr9. mstep H r5 d13 Hr5.
+    mstep H tcx d14 Htcx. mstep H g0 d15 Hg0. mstep H cv4 d16 Hcv4. mstep H itcx d17 Hitcx. mstep H ib d18 Hib.
+    mstep H ib6 d19 Hib6. mstep H ig0 d20 Hig0. mstep H ig8 d21 Hig8. mstep H g7 d22 Hg7. mstep H h1 d23 Hh1.
+    mstep H cw4 d24 Hcw4. mstep H ih d25 Hih. mstep H ih2 d26 Hih2. mstep H t40 d27 Ht40. mstep H h3 d28 Hh3.
+    mstep H g4 d29 Hg4. mstep H h9 d30 Hh9. mstep H s5 d31 Hs5. apply mret_ok in H as [-> _].
+    repeat match goal with Hx : lift _ _ = Ok (_, _) |- _ => apply lift_ok in Hx as [Hx ->] end.
+    (* the commitments *)
+    apply (commit_with_cpk_all CS Nm HN) in HCx as [Hrx0 [HCxr [HCxe Hd1]]]; [|assumption|assumption|assumption|assumption].
+    destruct (commit_v_spec CS Nm (s_v sg) ck d1 CCv d2 HN HNm ltac:(lia) Hd1 HCv) as [g0' [Hg0' [Hw0 [HCvr [HCve Hd2]]]]].
+    rewrite Hg0 in Hg0'. inversion Hg0'; subst g0'; clear Hg0'.
+    apply (commit_with_cpk_all CS Nm HN) in HCw as [Hrw0 [HCwr [HCwe Hd3]]];
+      [|assumption|constructor; [assumption|constructor]|cbn; lia|assumption].
+    apply (commit_with_cpk_all CS Nm HN) in HCe as [Hre0 [HCer [HCee Hd4]]];
+      [|assumption|constructor; [lia|constructor]|cbn; lia|assumption].
+    apply random_bits_nonneg in Hr1 as [Hr10 Hd5]; [|assumption].
+    apply random_bits_nonneg in Hr2 as [Hr20 Hd6]; [|assumption].
+    apply random_bits_nonneg in Hr3 as [Hr30 Hd7]; [|assumption].
+    apply random_bits_nonneg in Hr4 as [Hr40 Hd8]; [|assumption].
+    apply random_bits_nonneg in Hr6 as [Hr60 Hd9]; [|assumption].
+    apply random_bits_nonneg in Hr7 as [Hr70 Hd10]; [|assumption].
+    apply random_bits_nonneg in Hr8 as [Hr80 Hd11]; [|assumption].
+    apply random_bits_nonneg in Hr9 as [Hr90 Hd12]; [|assumption].
+    apply r5_loop_spec in Hr5 as [Hr5l [Hr50 [Hd13 Hr5rev]]]; [|assumption|assumption].
+    remember (hash_int (str_cat [Z.rem (cv4 * itcx * ib6 * ig8) Nm; Z.rem (g7 * h1) Nm; Z.rem (cw4 * ig8 * ih2) Nm;
+                                   Z.rem (t40 * h3) Nm; Z.rem (g4 * h9) Nm])) as ch eqn:Ech.
+    assert (Hch : 0 <= ch) by (rewrite Ech; unfold hash_int; lia).
+    apply s5_map in Hs5. subst s5.
+    rewrite <- (hidden_of_sorted U HS (length msgs) 0%nat) at 1
+      by (rewrite Forall_forall in *; intros j Hj; specialize (HU j Hj); lia).
+    (* the prover's values *)
+    apply (prod_pows_PP Nm HN) in Htcx as [Htcx0 Htcx]; [|assumption|lia].
+    apply (prod_pows_PP Nm HN) in Ht40 as [Ht400 Ht40]; [|assumption|lia].
+    rewrite pow_mod_nonneg in Hcv4, Hg7, Hh1, Hcw4, Hh3, Hg4, Hh9 by lia.
+    apply (inv_of_ok Nm HN) in Hitcx as [_ [Hitcx Hitcxr]].
+    pose proof (inv_of_ok Nm HN _ _ Hib) as [_ [Hibe Hibr]].
+    pose proof (inv_of_ok Nm HN _ _ Hig0) as [_ [Hig0e Hig0r]].
+    pose proof (inv_of_ok Nm HN _ _ Hih) as [_ [Hihe Hihr]].
+    rewrite pow_mod_nonneg in Hib6, Hig8, Hih2 by lia.
+    inversion Hcv4; subst cv4; clear Hcv4. inversion Hg7; subst g7; clear Hg7. inversion Hh1; subst h1; clear Hh1.
+    inversion Hcw4; subst cw4; clear Hcw4. inversion Hh3; subst h3; clear Hh3. inversion Hg4; subst g4; clear Hg4.
+    inversion Hh9; subst h9; clear Hh9. inversion Hib6; subst ib6; clear Hib6. inversion Hig8; subst ig8; clear Hig8.
+    inversion Hih2; subst ih2; clear Hih2.
+    assert (Hgl : exists rest, ck_g ck = g0 :: rest).
+    { destruct (ck_g ck) as [|x rest]; [cbn in Hg0; discriminate|]. cbn in Hg0. inversion Hg0. eauto. }
+    destruct Hgl as [grest Hgl].
+    assert (Hg0u : unit Nm g0) by (rewrite Hgl in Hcg; inversion Hcg; assumption).
+    (* the verifier *)
+    unfold nisp5_verify. cbn [sp_chal sp_s1 sp_s2 sp_s3 sp_s4 sp_s5 sp_s6 sp_s7 sp_s8 sp_s9 sp_Cx sp_Cv sp_Cw sp_Ce].
+    rewrite <- ENm. destruct (Nat.ltb_spec (length bases) (length msgs)); [lia|]. cbn [andb].
+    destruct (walk_full Nm HN U bases msgs r5 ch Hch Hm0 Hr50 Hr5l Hr5rev Hlb) as [tw [Hw [Htw0 Htw]]].
+    rewrite Hw. cbn [bind].
+    rewrite (pow_mod_nonneg (c_value CCv)) by first [exact HN | en]. cbn [bind].
+    (* units *)
+    assert (Htwu : unit Nm (Z.rem tw Nm)).
+    { rewrite rem_mod_nonneg by lia. apply (unit_eqm Nm HN (PP bases r5 * PP bases msgs ^ ch)).
+      - apply eqm_sym. eapply eqm_trans; [apply Zmod_eqm|exact Htw].
+      - apply (unit_mul Nm HN); [apply (PP_unit Nm HN); assumption|apply (unit_pow' Nm HN); [assumption|apply (PP_unit Nm HN); assumption]]. }
+    destruct (inv_of_unit Nm HN _ Htwu) as [itw [Hitw [Hitwe Hitwr]]]. rewrite Hitw. cbn [bind].
+    rewrite Hib. cbn [bind]. rewrite (pow_mod_nonneg ib) by first [exact HN | en]. cbn [bind].
+    rewrite Hg0. cbn [bind]. rewrite Hig0. cbn [bind]. rewrite (pow_mod_nonneg ig0) by first [exact HN | en]. cbn [bind].
+    destruct (pow_mod_neg_of_unit Nm HN (pk_c pk) ch Hch Hc) as [cc [Hcc [Hccr Hcce]]]. rewrite Hcc. cbn [bind].
+    rewrite (pow_mod_nonneg g0) by first [exact HN | en]. cbn [bind].
+    rewrite (pow_mod_nonneg (ck_h ck)) by first [exact HN | en]. cbn [bind].
+    assert (HCwu : unit Nm (c_value CCw)).
+    { apply (unit_eqm Nm HN _ _ (eqm_sym _ _ _ HCwe)). apply (unit_mul Nm HN).
+      - apply (PP_unit Nm HN); [assumption|constructor; [assumption|constructor]].
+      - apply (unit_pow' Nm HN); assumption. }
+    destruct (pow_mod_neg_of_unit Nm HN (c_value CCw) ch Hch HCwu) as [cwc [Hcwc [Hcwcr Hcwce]]]. rewrite Hcwc. cbn [bind].
+    rewrite (pow_mod_nonneg (c_value CCw)) by first [exact HN | en]. cbn [bind].
+    rewrite Hih. cbn [bind]. rewrite (pow_mod_nonneg ih) by first [exact HN | en]. cbn [bind].
+    destruct (walk_full Nm HN U (ck_g ck) msgs r5 ch Hch Hm0 Hr50 Hr5l Hr5rev Hlg) as [tw2 [Hw2 [Htw20 Htw2]]].
+    rewrite Hw2. cbn [bind].
+    rewrite (pow_mod_nonneg (ck_h ck)) by first [exact HN | en]. cbn [bind].
+    assert (HCxu : unit Nm (c_value CCx)).
+    { apply (unit_eqm Nm HN _ _ (eqm_sym _ _ _ HCxe)). apply (unit_mul Nm HN).
+      - apply (PP_unit Nm HN); assumption.
+      - apply (unit_pow' Nm HN); assumption. }
+    destruct (pow_mod_neg_of_unit Nm HN (c_value CCx) ch Hch HCxu) as [cxc [Hcxc [Hcxcr Hcxce]]]. rewrite Hcxc. cbn [bind].
+    rewrite (pow_mod_nonneg g0) by first [exact HN | en]. cbn [bind].
+    rewrite (pow_mod_nonneg (ck_h ck)) by first [exact HN | en]. cbn [bind].
+    assert (HCeu : unit Nm (c_value CCe)).
+    { apply (unit_eqm Nm HN _ _ (eqm_sym _ _ _ HCee)). apply (unit_mul Nm HN).
+      - apply (PP_unit Nm HN); [assumption|constructor; [lia|constructor]].
+      - apply (unit_pow' Nm HN); assumption. }
+    destruct (pow_mod_neg_of_unit Nm HN (c_value CCe) ch Hch HCeu) as [cec [Hcec [Hcecr Hcece]]]. rewrite Hcec. cbn [bind].
+    (* the five recomputed values equal the prover's *)
+    pose proof (cg_equiv Nm) as Ieq. pose proof (cg_mul Nm HN) as Imul. pose proof (cg_pow Nm HN) as Ipow.
+    assert (Htwi : cg Nm (tw * itw) 1).
+    { rewrite rem_mod_nonneg in Hitwe by lia. change (cg Nm (tw mod Nm * itw) 1) in Hitwe. rewrite (cg_mod Nm) in Hitwe. exact Hitwe. }
+    assert (HTi : cg Nm (PP bases r5 * itcx) 1).
+    { rewrite rem_mod_nonneg in Hitcx by lia. change (cg Nm (tcx mod Nm * itcx) 1) in Hitcx. rewrite (cg_mod Nm) in Hitcx.
+      change (cg Nm tcx (1 * PP bases r5)) in Htcx. rewrite Htcx in Hitcx. rewrite Z.mul_1_l in Hitcx. exact Hitcx. }
+    assert (HCw' : cg Nm (c_value CCw) (g0 ^ c_rand CCv * ck_h ck ^ c_rand CCw)).
+    { change (cg Nm (c_value CCw) (PP (ck_g ck) [c_rand CCv] * ck_h ck ^ c_rand CCw)) in HCwe. rewrite HCwe. rewrite Hgl.
+      apply eqr. cbn [PP]. ring. }
+    assert (HCe' : cg Nm (c_value CCe) (g0 ^ s_e sg * ck_h ck ^ c_rand CCe)).
+    { change (cg Nm (c_value CCe) (PP (ck_g ck) [s_e sg] * ck_h ck ^ c_rand CCe)) in HCee. rewrite HCee. rewrite Hgl.
+      apply eqr. cbn [PP]. ring. }
+    assert (E1 : Z.rem (c_value CCv ^ (r4 + s_e sg * ch) mod Nm * itw * (ib ^ (r6 + s_s sg * ch) mod Nm) *
+                        (ig0 ^ (r8 + c_rand CCv * s_e sg * ch) mod Nm) * cc) Nm =
+                 Z.rem (c_value CCv ^ r4 mod Nm * itcx * (ib ^ r6 mod Nm) * (ig0 ^ r8 mod Nm)) Nm).
+    { rewrite !rem_mod_nonneg by first [exact HN | nn].
+      change (cg Nm (c_value CCv ^ (r4 + s_e sg * ch) mod Nm * itw * (ib ^ (r6 + s_s sg * ch) mod Nm) *
+                        (ig0 ^ (r8 + c_rand CCv * s_e sg * ch) mod Nm) * cc)
+                    (c_value CCv ^ r4 mod Nm * itcx * (ib ^ r6 mod Nm) * (ig0 ^ r8 mod Nm))).
+      rewrite !(cg_mod Nm).
+      apply (eq1_alg Nm HN (c_value CCv) (s_v sg) g0 ig0 (pk_b pk) ib (pk_c pk) cc (PP bases r5) (PP bases msgs) tw itcx itw);
+        try assumption; lia. }
+    assert (E2 : Z.rem (g0 ^ (r7 + c_rand CCv * ch) mod Nm * (ck_h ck ^ (r1 + c_rand CCw * ch) mod Nm) * cwc) Nm =
+                 Z.rem (g0 ^ r7 mod Nm * (ck_h ck ^ r1 mod Nm)) Nm).
+    { rewrite !rem_mod_nonneg by first [exact HN | nn].
+      change (cg Nm (g0 ^ (r7 + c_rand CCv * ch) mod Nm * (ck_h ck ^ (r1 + c_rand CCw * ch) mod Nm) * cwc)
+                    (g0 ^ r7 mod Nm * (ck_h ck ^ r1 mod Nm))).
+      rewrite !(cg_mod Nm). rewrite (Z.pow_add_r g0 r7) by first [assumption | nn]. rewrite (Z.pow_mul_r g0) by assumption.
+      apply (schnorr_side Nm HN (g0 ^ r7) (g0 ^ c_rand CCv) (ck_h ck) r1 (c_rand CCw) ch (c_value CCw) cwc); assumption. }
+    assert (E3 : Z.rem (c_value CCw ^ (r4 + s_e sg * ch) mod Nm * (ig0 ^ (r8 + c_rand CCv * s_e sg * ch) mod Nm) *
+                        (ih ^ (r2 + c_rand CCw * s_e sg * ch) mod Nm)) Nm =
+                 Z.rem (c_value CCw ^ r4 mod Nm * (ig0 ^ r8 mod Nm) * (ih ^ r2 mod Nm)) Nm).
+    { rewrite !rem_mod_nonneg by first [exact HN | nn].
+      change (cg Nm (c_value CCw ^ (r4 + s_e sg * ch) mod Nm * (ig0 ^ (r8 + c_rand CCv * s_e sg * ch) mod Nm) *
+                        (ih ^ (r2 + c_rand CCw * s_e sg * ch) mod Nm))
+                    (c_value CCw ^ r4 mod Nm * (ig0 ^ r8 mod Nm) * (ih ^ r2 mod Nm))).
+      rewrite !(cg_mod Nm).
+      apply (eq3_alg Nm HN (c_value CCw) g0 ig0 (ck_h ck) ih (c_rand CCv) (c_rand CCw)); try assumption; lia. }
+    assert (E4 : Z.rem (tw2 * (ck_h ck ^ (r3 + c_rand CCx * ch) mod Nm) * cxc) Nm = Z.rem (t40 * (ck_h ck ^ r3 mod Nm)) Nm).
+    { rewrite !rem_mod_nonneg by first [exact HN | nn].
+      change (cg Nm (tw2 * (ck_h ck ^ (r3 + c_rand CCx * ch) mod Nm) * cxc) (t40 * (ck_h ck ^ r3 mod Nm))).
+      rewrite !(cg_mod Nm). change (cg Nm t40 (1 * PP (ck_g ck) r5)) in Ht40. rewrite Ht40, Htw2. rewrite Z.mul_1_l.
+      apply (schnorr_side Nm HN (PP (ck_g ck) r5) (PP (ck_g ck) msgs) (ck_h ck) r3 (c_rand CCx) ch (c_value CCx) cxc); assumption. }
+    assert (E5 : Z.rem (g0 ^ (r4 + s_e sg * ch) mod Nm * (ck_h ck ^ (r9 + c_rand CCe * ch) mod Nm) * cec) Nm =
+                 Z.rem (g0 ^ r4 mod Nm * (ck_h ck ^ r9 mod Nm)) Nm).
+    { rewrite !rem_mod_nonneg by first [exact HN | nn].
+      change (cg Nm (g0 ^ (r4 + s_e sg * ch) mod Nm * (ck_h ck ^ (r9 + c_rand CCe * ch) mod Nm) * cec)
+                    (g0 ^ r4 mod Nm * (ck_h ck ^ r9 mod Nm))).
+      rewrite !(cg_mod Nm). rewrite (Z.pow_add_r g0 r4) by first [assumption | nn]. rewrite (Z.pow_mul_r g0) by first [assumption | lia].
+      apply (schnorr_side Nm HN (g0 ^ r4) (g0 ^ s_e sg) (ck_h ck) r9 (c_rand CCe) ch (c_value CCe) cec); assumption. }
+    rewrite E1, E2, E3, E4, E5. rewrite <- Ech. rewrite Z.eqb_refl. reflexivity.
+  Qed.
+End Main.
